@@ -36,6 +36,16 @@ CLAIMED = {
    note="ReadFloat64's exclusivity rests on the assumed contract of internal/fp and is not included. Invariants of the literal machines are candidate atoms kept by Houdini and re-verified.",
    tech="contract-based deductive verification: quantified postconditions over wsrun/tokclass spec functions, cut-point VCs over go/ssa, z3/cvc5",
    ref="DESIGN.md section 6 (C13)"),
+ "C16": dict(
+   text="Proof of the frame and ownership parts that a per-call contract can express: (a) every store and every in-place append of every function under contract has a discharged obligation that its target is not an input region, and an SSA scan of every function in rjson and internal/fp shows no store into package-level memory; (b) ReadStringBytes, UnescapeStringContent, unescapeStringContent, appendRemainderOfString, unescapeUnicodeChar and growBytesSliceCapacity return, on success, a slice whose first len(dst) elements are the destination's prior contents (quantified postcondition, invariants at every machine cut point); (c) every returned string comes from a []byte->string conversion.",
+   note="Not covered (stated in evidence.proved_subset): that the appended suffix equals the empty-destination output, scratch-content independence of ReadString's *buf, and value trees. Input and destination are assumed not to overlap.",
+   tech="contract-based deductive verification: frame obligations per store site + quantified prefix-preservation postconditions, cut-point VCs over go/ssa, z3/cvc5",
+   ref="DESIGN.md section 6 (C16)"),
+ "C18": dict(
+   text="Decides the classical sufficient condition for race freedom of independent calls, not interleavings: every function of rjson and internal/fp (SSA scan of all of them) never stores into package-level memory (tables and error sentinels are written by init only), and every store site of the functions under contract targets a local, freshly allocated memory, or memory reachable from the function's own non-input parameters. With disjoint write footprints and read-only shared input, race freedom and sequential equivalence follow by the frame rule, which is an unchecked meta-argument (M-frame). A hidden package-level scratch buffer fails a named obligation.",
+   note="Schedules are not explored and nothing runs under the race detector (a different technique). sync.Pool is trusted to be concurrency-safe.",
+   tech="contract-based deductive verification: frame conditions (no global writes, writes confined to own footprint) over go/ssa",
+   ref="DESIGN.md section 6 (C18)"),
  "C12": dict(
    text="Proof for all ten Decode functions and nullOrBust, for every input and every prior target value: reader succeeds => target = reader's value, same offset, nil error; reader fails and ReadNull succeeds => target unchanged, offset of null, nil error; otherwise target unchanged and non-nil error. Stated over the readers' result functions, so it is exactly 'behaves as the corresponding reader'.",
    note="Relative to: each Read function is a deterministic function of the input bytes (result functions rok/rval/rp). DecodeString's stored value is not compared (strings are not scalars in the VC language).",
@@ -46,7 +56,7 @@ CLAIMED = {
 NOT_BUILT = "in reach per DESIGN.md section 6 but its check is not built yet - not claimed"
 NA = {
  "C03": NOT_BUILT, "C04": NOT_BUILT, "C06": NOT_BUILT, "C07": NOT_BUILT,
- "C08": NOT_BUILT, "C11": NOT_BUILT, "C14": NOT_BUILT, "C16": NOT_BUILT, "C18": NOT_BUILT, "C19": NOT_BUILT, "C20": NOT_BUILT,
+ "C08": NOT_BUILT, "C11": NOT_BUILT, "C14": NOT_BUILT, "C19": NOT_BUILT, "C20": NOT_BUILT,
  "C15": "needs a full functional contract of generic decoding for arbitrary prior reader state (incl. what sync.Pool.Get may return) and ownership of maps/slices reachable through interface values; not expressible in a quantifier-free bit-vector/array VC generator without inductive datatypes or separation logic (DESIGN.md section 6, C15)",
  "C17": "the functional content is utf8.DecodeRune / string([]rune) / string(rune) runtime intrinsics whose semantics would have to be assumed in exactly the form of the property, and the statement is sequence-valued and, for the slice/map helpers, an induction over interface-typed trees; no contract within reach decides it (DESIGN.md section 6, C17)",
 }
